@@ -17,12 +17,30 @@ open JSight JSight.Gen JSight.C08
 
 /-! ## (2) a banned INCLUDE is refused at the INCLUDE -/
 
-/-- (2) a banned INCLUDE is refused AT the INCLUDE, whatever it names (a refused name, a missing file, a directory, a
-    file that is already on the include stack) and whatever the scan state is (the pending directive is not placed) -/
+/-- (2) at a banned INCLUDE: the directive written before it is placed first (repair F42: `processInclude` starts
+    with `processCurrentDirective`; its context error wins), otherwise the result is `notAllowed` AT the INCLUDE,
+    whatever it names (a refused name, a missing file, a directory, a file that is already on the include stack);
+    nothing behind it is looked at and no file is read (`rest`, `fs`, `f`, `valid` are arbitrary) -/
 theorem banned_include_refused (banned : List Kind) (hb : banned.contains Kind.Include = true) (fs : FS)
     (fuel : Nat) (stack : List (Nat × Nat)) (cur pos f : Nat) (valid : Bool) (rest : List FTok) (st : PScan) :
+    scanIncFileB banned fs (fuel + 1) stack cur pos (FTok.incl f valid :: rest) st =
+      match flushPending st with
+      | .error e => .error e.toB
+      | .ok _ => .error (.notAllowed cur pos) :=
+  incl_head_banned banned hb fs fuel stack cur pos f valid rest st
+
+/-- (2, the usual case) the directive written before the INCLUDE can be placed: refused AT the INCLUDE -/
+theorem banned_include_refused_at (banned : List Kind) (hb : banned.contains Kind.Include = true) (fs : FS)
+    (fuel : Nat) (stack : List (Nat × Nat)) (cur pos f : Nat) (valid : Bool) (rest : List FTok) (st st' : PScan)
+    (hfl : flushPending st = .ok st') :
     scanIncFileB banned fs (fuel + 1) stack cur pos (FTok.incl f valid :: rest) st = .error (.notAllowed cur pos) := by
-  rw [scanIncFileB_incl, hb]; rfl
+  rw [banned_include_refused banned hb fs fuel stack cur pos f valid rest st, hfl]
+
+/-- (2, never accepted) whatever the fuel and the state -/
+theorem banned_include_not_ok (banned : List Kind) (hb : banned.contains Kind.Include = true) (fs : FS)
+    (fuel : Nat) (stack : List (Nat × Nat)) (cur pos f : Nat) (valid : Bool) (rest : List FTok) (st r : PScan) :
+    scanIncFileB banned fs fuel stack cur pos (FTok.incl f valid :: rest) st ≠ .ok r :=
+  incl_head_banned_not_ok banned hb fs fuel stack cur pos f valid rest st r
 
 /-! ## (3) a directive of a banned kind is refused at that directive -/
 
@@ -158,7 +176,8 @@ theorem banned_include_reads_nothing_scan (banned : List Kind) (hb : banned.cont
     scanIncFileB_flat banned hb fs' stack cur toks fuel' pos st hf']
 
 /-- (1) NO FILE IS READ behind a banned INCLUDE: with INCLUDE banned the result of a project depends on its root file
-    only.  No hypothesis on the sizes: `scanProjectB` passes an amount of fuel that depends on the whole file system,
+    only — also when the directive written before the INCLUDE cannot be placed: its context error comes first
+    (`banned_include_refused`), and still no file is read.  No hypothesis on the sizes: `scanProjectB` passes an amount of fuel that depends on the whole file system,
     but more than the root file has tokens in both cases, and then the amount does not matter (`scanIncFileB_flat`). -/
 theorem banned_include_reads_nothing (banned : List Kind) (hb : banned.contains Kind.Include = true)
     (fs fs' : FS) (root : Nat) (h : fs.get? root = fs'.get? root) :
@@ -329,9 +348,13 @@ example : scanProjectB [.Include] [(0, .file [.dir urlD, .incl 1]), (1, .directo
   decide +kernel
 example : scanProjectB [.Include] [(0, .file [.dir urlD, .incl 0])] 0 = .error (.notAllowed 0 1) := by decide +kernel
 
-/-- INCLUDE banned: the pending directive (a misplaced Body) is NOT placed before the INCLUDE is refused -/
+/-- INCLUDE banned: the pending directive (a misplaced Body) is placed BEFORE the INCLUDE is refused (repair F42): its
+    context error wins; a directive that can be placed (the URL above) is placed and the INCLUDE is refused -/
 example : scanProjectB [.Include] [(0, .file [.dir { kind := .Body, id := 9 }, .incl 7])] 0
-    = .error (.notAllowed 0 1) := by decide +kernel
+    = .error (.ctx (.incorrectContext 9)) := by decide +kernel
+/-- … and without the ban as well (the INCLUDE names a missing file) -/
+example : scanProjectB [] [(0, .file [.dir { kind := .Body, id := 9 }, .incl 7])] 0
+    = .error (.ctx (.incorrectContext 9)) := by decide +kernel
 
 /-- the left alternative of `banned_directive_refused`: the previous directive is placed first -/
 example : scanProjectB [.Type] [(0, .file [.dir { kind := .Body, id := 9 }, .dir tyD])] 0
